@@ -130,10 +130,17 @@ def corpus_cases():
              "threads": [{"proc": 0, "prog": [R(1, False)]}, {"proc": 1, "prog": [R(2, True)]}], "seed": 0},
             {"kind": "all", "api": "thread", "nprocs": 1,
              "threads": [{"proc": 0, "prog": [R(1, True, re=False, kids=[R(2, True, re=False)])]},
-                         {"proc": 0, "prog": [R(3, False, bl=False)]}], "seed": 0}]
+                         {"proc": 0, "prog": [R(3, False, bl=False)]}], "seed": 0}] + _real_corpus()
+
+
+def _real_corpus():
+    from harness.corr.c15_real import corpus_real
+    return corpus_real()
 
 
 def shrink(case):
+    if case.get("kind") == "real":
+        return
     th = case["threads"]
     if len(th) > 2:
         for i in range(len(th)):
@@ -626,6 +633,9 @@ def run_schedule(case, drv, prefix, rng):
 
 
 def run_case(case, drv):
+    if case.get("kind") == "real":
+        from harness.corr.c15_real import run_real
+        return run_real(case, drv)
     tags = {f"api:{case['api']}", f"procs:{case['nprocs']}", f"threads:{len(case['threads'])}", f"kind:{case['kind']}"}
     k, mon = [], []
     reqs = [r for t in case["threads"] for r in _flat(t["prog"])]
